@@ -381,20 +381,45 @@ theorem C07_control_para_reread_strong (cfg : WrapCfg) (p : ParaS) (more : Bool)
   obtain ⟨p', h1, d', hd', _, htext, hparse, hitems⟩ := paraWrap_reread2 cfg p more hwf ht hc hrel hup
   exact ⟨p', h1, by rw [hparse], d'.tree, by simp [readStrict, hparse], hitems⟩
 
-/-- a control file with an `Uploaders` field ending in a comma, a `Build-Depends` that does not parse
-    and a well-formed `Depends` -/
+/-- `Uploaders: A <a@b>,⏎ B <c@d>, ⏎` — trailing comma, blanks behind it -/
+def exTrailing3 : Spec.EntryS :=
+  { key := "Uploaders".toList, ws := [' '], v := "A <a@b>,".toList, nl := true,
+    conts := [{ indent := [' '], text := "B <c@d>, ".toList, nl := true }] }
+
+/-- a source paragraph with that `Uploaders` field, a comment and a `Build-Depends` that does not parse -/
+def exSourcePara : Spec.ParaS :=
+  { first := { key := "Source".toList, ws := [' '], v := "a".toList, nl := true, conts := [] },
+    rest := [.entry exTrailing3, .comment " who".toList true, .entry exUnparsed] }
+
+/-- a control file: that paragraph and a binary paragraph with a well-formed `Depends` -/
 def exControl2 : Spec.DocS :=
   { lead := [],
     paras := [
-      ({ first := { key := "Source".toList, ws := [' '], v := "a".toList, nl := true, conts := [] },
-         rest := [.entry exTrailing2Nl, .comment " who".toList true, .entry exUnparsed] }, [.blank]),
+      (exSourcePara, [.blank]),
       ({ first := { key := "Package".toList, ws := [' '], v := "b".toList, nl := true, conts := [] },
          rest := [.entry { key := "Depends".toList, ws := [' '], v := "x,".toList, nl := true,
                            conts := [{ indent := "  ".toList, text := "y".toList, nl := false }] }] }, [])] }
-where
-  exTrailing2Nl : Spec.EntryS :=
-    { key := "Uploaders".toList, ws := [' '], v := "A <a@b>,".toList, nl := true,
-      conts := [{ indent := [' '], text := "B <c@d>, ".toList, nl := true }] }
+
+/-- the hypotheses of `C07_control_para_idempotent_strong` / `C07_control_para_reread_strong` -/
+example : exSourcePara.WF ∧ exSourcePara.Term true ∧ Ctl.ParaRelOK2 exSourcePara ∧ Ctl.ParaUpOK2 exSourcePara := by
+  refine ⟨by decide, by decide, ?_, ?_⟩
+  · intro e he hk
+    simp only [exSourcePara, paraEntries, itemEntries, List.mem_cons, List.not_mem_nil, or_false] at he
+    rcases he with rfl | rfl | rfl
+    · exact absurd hk (by decide)
+    · exact absurd hk (by decide)
+    · exact Or.inr (by unfold Ctl.Unparsed; decide +kernel)
+  · intro e he hk
+    simp only [exSourcePara, paraEntries, itemEntries, List.mem_cons, List.not_mem_nil, or_false] at he
+    rcases he with rfl | rfl | rfl
+    · exact absurd hk (by decide)
+    · decide
+    · exact absurd hk (by decide)
+
+/-- the hypothesis of `C07_control_uploaders_nohash` (and of the third part of
+    `C07_control_strong_subsumes`) on that field -/
+example : exTrailing3.WF ∧ Ctl.ElemsNoHash (rawText exTrailing3) :=
+  ⟨by decide, by unfold Ctl.ElemsNoHash; decide⟩
 
 example : exControl2.WF ∧ IndentOK exCfg := ⟨by decide, by simp [IndentOK, exCfg]⟩
 
@@ -406,7 +431,7 @@ example : Ctl.RelFieldsOK2 exControl2 := by
   intro pg hpg e he hk
   simp only [exControl2, List.mem_cons, List.not_mem_nil, or_false] at hpg
   rcases hpg with rfl | rfl
-  · simp only [paraEntries, itemEntries, List.mem_cons, List.not_mem_nil, or_false] at he
+  · simp only [exSourcePara, paraEntries, itemEntries, List.mem_cons, List.not_mem_nil, or_false] at he
     rcases he with rfl | rfl | rfl
     · exact absurd hk (by decide)
     · exact absurd hk (by decide)
@@ -420,12 +445,17 @@ example : Ctl.UploadersOK2 exControl2 := by
   intro pg hpg e he hk
   simp only [exControl2, List.mem_cons, List.not_mem_nil, or_false] at hpg
   rcases hpg with rfl | rfl
-  · simp only [paraEntries, itemEntries, List.mem_cons, List.not_mem_nil, or_false] at he
+  · simp only [exSourcePara, paraEntries, itemEntries, List.mem_cons, List.not_mem_nil, or_false] at he
     rcases he with rfl | rfl | rfl
     · exact absurd hk (by decide)
     · decide
     · exact absurd hk (by decide)
   · simp only [paraEntries, itemEntries, List.mem_cons, List.not_mem_nil, or_false] at he
     rcases he with rfl | rfl <;> exact absurd hk (by decide)
+
+/-- hence `Control::wrap_and_sort` returns a tree for it (hypothesis `h` of
+    `C07_control_idempotent_strong`) -/
+example (hrel : Ctl.RelFieldsOK2 exControl2) : ∃ root', Ctl.controlWrap exCfg exControl2.tree = some root' :=
+  C07_control_total_strong exCfg exControl2 (by decide) (by simp [IndentOK, exCfg]) hrel
 
 end Deb822Verif.Props.C07
